@@ -40,7 +40,8 @@ REQUIRED_REACH = ['Transformation.py:transformation', 'transformation_quad',
                   'normalize_matrix6', 'ParseMCNPCell.parse_trcl_kw']
 
 ATTACH = ['surf-tr', 'trcl-num', 'trcl-inline12', 'trcl-inline3',
-          'trcl-inline13', 'trcl-star', 'implicit', 'trcl-pair']
+          'trcl-inline13', 'trcl-star', 'implicit', 'trcl-pair',
+          'trcl-filled']
 KINDS = [('p', 'general'), ('p', 'axis+'), ('px', 'any'), ('s', 'any'),
          ('c/z', 'any'), ('cx', 'any'), ('k/y', 'plus'), ('kz', 'minus'),
          ('kx', 'two'), ('k/x', 'minus'), ('tz', 'circular'),
@@ -118,6 +119,28 @@ def build(case):
         form = attach.split('-')[1]
         for cel in probe_cells:
             cel.trcl = tr_spec(rng, motion, form)
+    elif attach == 'trcl-filled':
+        # the moved cells are filled (FILL without a transformation of its
+        # own): their content moves with them
+        form = rng.choice(['num', 'inline12', 'star', 'inline13'])
+        if form == 'num':
+            trs.append(tr_card(rng, 7, motion, spelling))
+            deck.tags.add(f'trspell.{spelling}')
+        cen0 = np.array(params[0:3], dtype=float) if macro else np.zeros(3)
+        nrm = np.array([rng.uniform(0.3, 1) * rng.choice([-1, 1])
+                        for _ in range(3)])
+        deck.surfs.append(M.Surf(50, 'p', [float(v) for v in nrm]
+                                 + [float(nrm @ cen0) + rng.uniform(-.3, .3)]))
+        for cel in probe_cells:
+            cel.trcl = M.TrSpec(number=7) if form == 'num' else \
+                tr_spec(rng, motion, form)
+            cel.fill = M.Fill(universe=5)
+        nmat = len(deck.mats)
+        for k, leaf in enumerate((M.S(-50), M.S(50)), start=1):
+            deck.mats.append(M.Material(nmat + k, [('13027', '1')]))
+            deck.cells.append(M.Cell(50 + k, mat=nmat + k,
+                                     rho=f'-{nmat + k}.5', geom=leaf,
+                                     imp={'n': '1'}, u=5))
     elif attach == 'trcl-pair':
         # the same surface card used by two groups of cells under two
         # different transformations (rotations about the object's centre, so
